@@ -1371,16 +1371,12 @@ def main(chk: Check) -> None:
     built = chk.coq_make(["C20/Proofs.vo", "C20/Extract.vo"])
     for _ in range(3):
         # another builder's scratch .v file that vanished between mkproject.sh and make ("No rule to make
-        # target 'Cxx/...'") is not a C20 obligation: regenerate the project and try again
+        # target 'Cxx/...'") is not a C20 obligation: try again (mkproject.sh regenerates the project)
         if built or not chk.breaks or "No rule to make target" not in chk.breaks[-1]["detail"] or "'C20/" in chk.breaks[-1]["detail"]:
             break
         import time as _t
         chk.breaks.pop()
         _t.sleep(3)
-        try:
-            os.remove(os.path.join(COQ, "_CoqProject"))
-        except OSError:
-            pass
         built = chk.coq_make(["C20/Proofs.vo", "C20/Extract.vo"])
     if built:
         chk.audit_props("C20/Props.v")
